@@ -48,6 +48,12 @@ func glslOpaqueType(t string) bool {
 }
 
 func c17ReflGLSL(p *wgen.F5Program, m *ir.Module, fail c17Fail, count func()) {
+	c17ReflGLSLPairs(p, m, "", fail, count)
+}
+
+// pairTex names the texture every sampler is used with; "" = the F5 rule (the last used texture of the
+// sampler's class).
+func c17ReflGLSLPairs(p *wgen.F5Program, m *ir.Module, pairTex string, fail c17Fail, count func()) {
 	for _, ver := range c17GLSLVersions {
 		vtag := "glsl" + ver.VersionNumber() + map[bool]string{true: "es"}[ver.ES]
 		for _, mapped := range []bool{false, true} {
@@ -202,7 +208,7 @@ func c17ReflGLSL(p *wgen.F5Program, m *ir.Module, fail c17Fail, count func()) {
 					texKind := map[string]string{"sampler": "texture", "comparison_sampler": "depth_texture"}[sm.Kind]
 					var tex *wgen.F5Resource
 					for i := range p.Resources {
-						if p.Resources[i].Kind == texKind && used[p.Resources[i].Name] {
+						if p.Resources[i].Kind == texKind && used[p.Resources[i].Name] && (pairTex == "" || p.Resources[i].Name == pairTex) {
 							tex = &p.Resources[i]
 						}
 					}
